@@ -209,6 +209,10 @@ impl Layout {
         }
     }
 
+    pub fn has_pending_holes(&self) -> bool {
+        !self.pending_holes.is_empty()
+    }
+
     pub fn reserve(&mut self, start: usize, reserved: usize) {
         if self.start_to_reserved.insert(start, reserved).is_some() {
             unreachable!();
